@@ -308,7 +308,9 @@ def run(tier, seed, rep):
                         continue
                     if cfgname.endswith('l1'):
                         try:
-                            pl.encode('iso-8859-1')
+                            # what is written is the displayed form (-- has become a dash): it must exist in latin-1,
+                            # otherwise the configuration itself is inconsistent with the document
+                            display(pl).encode('iso-8859-1')
                         except UnicodeEncodeError:
                             continue
                         if quick and not any(ord(c) > 127 for c in pl):
